@@ -157,17 +157,21 @@ class Repo:
             try:
                 from .inline import inline_in_function
 
-                new_top = {q: f.node for q, f in m.funcs.items() if "." not in q and q not in ref.funcs}
+                def plain(f: FuncInfo) -> bool:
+                    # a decorated helper (lru_cache, cache, ...) is not equivalent to its body: never inline it
+                    return all(d in ("staticmethod", "classmethod") for d in f.decorators)
+
+                new_top = {q: f.node for q, f in m.funcs.items() if "." not in q and q not in ref.funcs and plain(f)}
                 for q, fi in list(m.funcs.items()):
                     if "<locals>" in q or q not in ref.funcs:
                         continue
                     helpers = dict(new_top)
                     if fi.cls is not None:
                         for q2, f2 in m.funcs.items():
-                            if q2.startswith(fi.cls.name + ".") and q2.count(".") == 1 and q2 not in ref.funcs:
+                            if q2.startswith(fi.cls.name + ".") and q2.count(".") == 1 and q2 not in ref.funcs and plain(f2):
                                 helpers[f2.node.name] = f2.node
                     for q2, f2 in m.funcs.items():
-                        if q2.startswith(q + ".<locals>.") and q2 not in ref.funcs:
+                        if q2.startswith(q + ".<locals>.") and q2 not in ref.funcs and plain(f2):
                             helpers[f2.node.name] = f2.node
                     if helpers:
                         log: List[str] = []
